@@ -18,6 +18,7 @@
    used by the trace specification (TextDenotes) together.                                                     *)
 EXTENDS JsonText, Json
 
+CONSTANT PairFull         \* TRUE: the two-item shapes range over all pairs of the scalar table, FALSE: over a small sub-table
 CONSTANT SweepEvery       \* every SweepEvery-th tree is also written to files whose 16382-byte read-chunk boundary is swept
                           \* across every position of the tree's text (harness/c05_replay does the padding arithmetic)
 VARIABLES n, act
@@ -87,7 +88,8 @@ ByteStr3(b) == S(<<97, b, 99>>)
 Scalars == Ints \o Doubles \o Floats \o Others \o PlainStrs
 NS == Len(Scalars)
 Small == << I(1), I(-2147483647), D(16313, 39321, 39321, 39322), F(15820, 52429), Z, BT, S(<<>>), S(<<97, 47, 98>>), S(Rep(99, 8)) >>
-NSm == Len(Small)
+PairTab == IF PairFull THEN Scalars ELSE Small
+NSm == Len(PairTab)
 
 K1 == <<107>>                       \* k
 K2 == <<107, 50>>                   \* k2
@@ -121,7 +123,7 @@ Total == N1 + N2 + N3 + N4 + NSp
 TreeOf(c) ==
     IF c <= N1 THEN Shapes1(Scalars[((c - 1) \div NSh1) + 1])[((c - 1) % NSh1) + 1]
     ELSE IF c <= N1 + N2 THEN
-         LET q == c - N1 - 1 IN Shapes2(Small[(q \div (NSm * NSh2)) + 1], Small[((q \div NSh2) % NSm) + 1])[(q % NSh2) + 1]
+         LET q == c - N1 - 1 IN Shapes2(PairTab[(q \div (NSm * NSh2)) + 1], PairTab[((q \div NSh2) % NSm) + 1])[(q % NSh2) + 1]
     ELSE IF c <= N1 + N2 + N3 THEN
          LET q == c - N1 - N2 - 1
              b == (q % 255) + 1
